@@ -766,8 +766,30 @@ fn eval_terms(
     missing: &Option<Value>,
     show_err: Option<bool>,
     approx: bool,
+    include: &Option<IncExc>,
+    exclude: &Option<IncExc>,
     subs: &Aggs,
 ) -> Exp {
+    // `include` / `exclude`: a term is aggregated when it matches `include` (if given) and does
+    // not match `exclude`; a regular expression has to match the whole term
+    let matcher = |p: &IncExc| -> Box<dyn Fn(&str) -> bool> {
+        match p {
+            IncExc::Values(v) => {
+                let set: BTreeSet<String> = v.iter().cloned().collect();
+                Box::new(move |t: &str| set.contains(t))
+            }
+            IncExc::Regex(r) => {
+                let re = regex::Regex::new(&format!("^(?:{r})$")).expect("generated pattern");
+                Box::new(move |t: &str| re.is_match(t))
+            }
+        }
+    };
+    let inc = include.as_ref().map(matcher);
+    let exc = exclude.as_ref().map(matcher);
+    let allowed = |v: &V| -> bool {
+        let V::S(t) = v else { return true };
+        inc.as_ref().map(|m| m(t)).unwrap_or(true) && !exc.as_ref().map(|m| m(t)).unwrap_or(false)
+    };
     let mut entries: BTreeMap<String, (V, Vec<usize>)> = BTreeMap::new();
     let missing_v: Option<V> = missing.as_ref().map(|m| match (field.ty(), m) {
         (_, Value::String(s)) => V::S(s.clone()),
@@ -786,6 +808,9 @@ fn eval_terms(
         }
         let mut seen = BTreeSet::new();
         for v in vs {
+            if !allowed(v) {
+                continue;
+            }
             let k = ckey_of(v);
             if seen.insert(k.clone()) {
                 entries.entry(k).or_insert_with(|| (v.clone(), vec![])).1.push(d);
@@ -800,7 +825,9 @@ fn eval_terms(
     if mdc == 0 && field.ty() == Ty::Str {
         for &d in env.all_docs {
             for v in env.corpus.docs[d].get(field) {
-                entries.entry(ckey_of(v)).or_insert_with(|| (v.clone(), vec![]));
+                if allowed(v) {
+                    entries.entry(ckey_of(v)).or_insert_with(|| (v.clone(), vec![]));
+                }
             }
         }
     }
@@ -1136,8 +1163,24 @@ pub fn eval_agg(a: &Agg, docs: &[usize], env: &Env) -> Exp {
             missing,
             show_err,
             approx,
+            include,
+            exclude,
             subs,
-        } => eval_terms(env, docs, *field, *size, *segment_size, *min_doc_count, order, missing, *show_err, *approx, subs),
+        } => eval_terms(
+            env,
+            docs,
+            *field,
+            *size,
+            *segment_size,
+            *min_doc_count,
+            order,
+            missing,
+            *show_err,
+            *approx,
+            include,
+            exclude,
+            subs,
+        ),
         Agg::Filter { q, subs } => {
             let ds: Vec<usize> = docs.iter().cloned().filter(|&d| filter_matches(env.corpus, d, q)).collect();
             bucket_obj(vec![("doc_count", Exp::Int(ds.len() as i128))], eval_aggs_map(subs, &ds, env))
